@@ -34,12 +34,41 @@ Def:     'def' name=ID;
 Use:     'use' ref=[Def:QName];
 UseList: 'refs' refs+=[Def:QName][','];
 QName:   ID('.'ID)*;
+Comment: /\/\*(.|\n)*?\*\//;
 """
 GRAMMAR_RREL = GRAMMAR.replace("[Def:QName]", "[Def:QName|+m:elems]")
 # parameter values: the module speaks of names; which values they carry is rendering
 PARAM_VALUES = {"std": {"p": 1, "q": "v", "zzz": 0},
                 "none": {"p": None, "q": None, "zzz": None},
                 "falsy": {"p": 0, "q": "", "zzz": False}}
+# forms of the value given for the built-in project_root (same directory every time)
+ROOT_FORMS = ("trail", "dotdot", "rel")
+# characters a comment in front of an item may be made of (never a line feed / carriage return)
+DECO_CHARS = {"ascii": "xy", "ff": "x\x0c", "vt": "x\x0b", "nel": "x\x85", "ls": "x\u2028", "ps": "x\u2029",
+              "fs": "\x1cx\x1e", "nfd": "e\u0301"}
+
+
+def variants(sc):
+    """Rendering choices the module does not speak about, fixed by the scenario's content:
+    the directory is reached through a symbolic link, the root rule is backed by a user
+    class, which characters the comments consist of."""
+    d = int(common.digest({k: v for k, v in sc.items() if k != "id"}), 16)
+    kinds = sorted(DECO_CHARS)
+    return {"link": bool(d & 1), "uc": bool((d >> 1) & 1), "dk": kinds[(d >> 2) % len(kinds)]}
+
+
+def deco_text(n, dk):
+    """a comment and a blank of together n characters"""
+    if n == 0:
+        return ""
+    if n < 6:
+        raise tlc.MachineryError("decoration shorter than 6 characters")
+    unit = DECO_CHARS[dk]
+    body = (unit * n)[:n - 5]
+    if dk == "nfd" and body.endswith("e"):
+        body = body[:-1] + "x"
+    return "/*" + body + "*/ "
+
 GLOB_PATTERN = "*.m?"
 LANG_PATTERN = {"A": "*.?a", "B": "*.?b"}
 
@@ -94,7 +123,10 @@ def builtin_text(sc):
 
 def render(sc, f, fault_on):
     defs, uses, lrefs, broken = content(sc, f, fault_on)
-    ind = " " * sc["ind"][f]
+    deco = deco_text(sc["deco"][f], variants(sc)["dk"])
+    if len(deco) != sc["deco"][f] or "\n" in deco or "\r" in deco:
+        raise tlc.MachineryError("decoration has not the length the module assumes")
+    ind = " " * sc["ind"][f] + deco
     lines = [""] * sc["pad"][f]
     for s in sc["imports"][f]:
         target = GLOB_PATTERN if s == "*" else file_name(sc, s)
@@ -108,7 +140,7 @@ def render(sc, f, fault_on):
     for ln in lines:                       # renderer self-check: the layout the module assumes
         if ln and not (ln.startswith(ind) and not ln[len(ind):].startswith(" ")):
             raise tlc.MachineryError("renderer produced an unexpected line")
-        if "import" in ln and len(ln) != len(ind) + 13:
+        if "import" in ln and len(ln) != sc["ind"][f] + sc["deco"][f] + 13:
             raise tlc.MachineryError("import line is not 13 characters long")
     return "".join(ln + "\n" for ln in lines)
 
@@ -124,10 +156,17 @@ class Session:
         import textx.scoping.providers as sp
         from textx.scoping import GlobalModelRepository, ModelLoader, ModelRepository, Postponed
 
-        self.sc, self.root = sc, root
+        self.sc = sc
+        self.var = variants(sc)
+        if self.var["link"]:               # the directory is reached through a symbolic link
+            os.makedirs(os.path.join(root, "real"), exist_ok=True)
+            os.symlink(os.path.join(root, "real"), os.path.join(root, "ln"))
+            root = os.path.join(root, "ln")
+        self.root = root
         self.textx = textx
         self.lib = os.path.join(root, "lib") if sc["kind"] == "plain_search" else root
         os.makedirs(self.lib, exist_ok=True)
+        os.makedirs(os.path.join(root, "sub"), exist_ok=True)
         self.fault_on = True
         self.events = []
         self.hist = []
@@ -190,6 +229,12 @@ class Session:
             rid = sc["repo"][lg]
             if rid != "-":
                 kw["global_repository"] = shared.get(rid, True)
+            if self.var["uc"]:               # the root rule is backed by a user class
+                class Model:
+                    def __init__(self, imports, elems):
+                        self.imports, self.elems = imports, elems
+
+                kw["classes"] = [Model]
             mm = textx.metamodel_from_str(GRAMMAR_RREL if kind == "rrel" else GRAMMAR, **kw)
             for p in sc["declared"][lg]:
                 mm.model_param_defs.add(p, "harness parameter " + p)
@@ -214,7 +259,12 @@ class Session:
             self.mms[lg], self.provs[lg] = mm, prov
             if rid != "-":
                 self.repo_of.setdefault(rid, mm._tx_model_repository)
-        self.registered = len(langs) > 1
+        self.app_repo = None
+        if any(op.get("how") == "app" for op in sc["session"]):
+            self.app_repo = GlobalModelRepository()        # owned by the application
+            self.repo_of["app"] = self.app_repo
+        self.sp = sp
+        self.registered = len(langs) > 1 or self.app_repo is not None
         if self.registered:                 # file dispatch through the language registry
             textx.clear_language_registrations()
             for lg in langs:
@@ -252,7 +302,7 @@ class Session:
 
     def write_files(self):
         for f in self.sc["files"]:
-            with builtins.open(self.path(f), "w") as fh:
+            with builtins.open(self.path(f), "w", encoding="utf-8", newline="") as fh:
                 fh.write(render(self.sc, f, self.fault_on))
 
     # ---- naming
@@ -291,10 +341,16 @@ class Session:
         self.opens = {}
         self._last_objproc = None
         self.events.append({"e": "LoadBegin", "file": op["file"]})
+        vals = op.get("vals", "std")
+        form = {"trail": self.root + os.sep, "dotdot": os.path.join(self.root, "sub", ".."),
+                "rel": os.path.basename(self.root)}.get(vals, self.root)
         kwargs = {}
         for p in op["given"]:
-            kwargs[p] = self.root if p == "project_root" else PARAM_VALUES[op.get("vals", "std")][p]
+            kwargs[p] = form if p == "project_root" else PARAM_VALUES[vals if vals in PARAM_VALUES else "std"][p]
         self.cur_values = kwargs
+        cwd = os.getcwd()
+        if vals == "rel":
+            os.chdir(os.path.dirname(self.root))
         if sc["kind"] in GLOB_KINDS:
             # with project_root the pattern is relative to it, otherwise absolute (same files)
             pat = GLOB_PATTERN if "project_root" in op["given"] else os.path.join(self.root, GLOB_PATTERN)
@@ -305,6 +361,10 @@ class Session:
         try:
             if op["how"] == "file":
                 model = mm.model_from_file(path, **kwargs)
+            elif op["how"] == "app":
+                # the application loads the file into its own repository
+                self.sp.PlainNameGlobalRepo(path).load_models_in_model_repo(self.app_repo, **kwargs)
+                model = self.app_repo.all_models.filename_to_model[os.path.abspath(path)]
             else:
                 text = render(sc, op["file"], self.fault_on)
                 if op["how"] == "strfile":
@@ -315,6 +375,8 @@ class Session:
             if isinstance(e, (KeyboardInterrupt, SystemExit, tlc.MachineryError)):
                 raise
             err = e
+        finally:
+            os.chdir(cwd)
         s = self.summary(op, model, err)
         self.events.append(dict(s, e="LoadEnd"))
         self.hist.append(s)
@@ -372,8 +434,10 @@ class Session:
         incl, local, params, tg = [], [], [], []
         if err is None:
             models = []
-            if hasattr(model, "_tx_model_repository"):
-                for k, m in model._tx_model_repository.all_models.filename_to_model.items():
+            # the repository of the load: the application's, or the one the returned model refers to
+            load_repo = self.app_repo if op["how"] == "app" else getattr(model, "_tx_model_repository", None)
+            if load_repo is not None:
+                for k, m in load_repo.all_models.filename_to_model.items():
                     models.append(m)
                     lb = self.label(m)
                     want = "~" + str(lb["a"]) if lb["f"] == "~" else lb["f"]
@@ -392,10 +456,14 @@ class Session:
                         fs.append(self.repo_key(k, lm) if same else "!notshared:" + self.repo_key(k, lm))
                 local.append({"m": lb, "fs": sorted(fs)})
                 params.append({"m": lb, "ps": self.param_names(m)})
-                refs = [(el, "ref", None) for el in m.elems if el.__class__.__name__ == "Use"]
-                for el in m.elems:
+                elems = getattr(m, "elems", None)
+                if elems is None:              # a half-built model: that is the observation
+                    tg.append({"m": lb, "i": 0, "to": {"m": {"f": "!no-elems", "a": 0}, "i": 0}})
+                    continue
+                refs = [(el, "ref", None) for el in elems if el.__class__.__name__ == "Use"]
+                for el in elems:
                     if el.__class__.__name__ == "UseList":
-                        refs += [(el, "refs", j) for j in range(len(el.refs))]
+                        refs += [(el, "refs", j) for j in range(len(getattr(el, "refs", None) or []))]
                 for i, (el, attr, j) in enumerate(refs, 1):
                     try:                       # whatever is found there is the observation
                         t = getattr(el, attr) if j is None else getattr(el, attr)[j]
@@ -415,6 +483,10 @@ class Session:
                 self.fault_on = False
                 self.write_files()
                 self.events.append({"e": "Repair"})
+            elif op["op"] == "declare":
+                for name in op["given"]:
+                    self.mms[op["file"]].model_param_defs.add(name, "declared later: " + name)
+                self.events.append({"e": "Declare"})
             else:
                 self.load(op)
             self.hist_ops.append(op)
@@ -431,7 +503,7 @@ def run_scenario(sc, work=None):
         if not own:
             for n in os.listdir(root):
                 p = os.path.join(root, n)
-                shutil.rmtree(p) if os.path.isdir(p) else os.remove(p)
+                shutil.rmtree(p) if os.path.isdir(p) and not os.path.islink(p) else os.remove(p)
         s = Session(sc, root)
         return s.run()
     finally:
@@ -498,7 +570,7 @@ def judge_scenario(rep, sc, obs_hist, outs, findings, nontrivial, case_extra=Non
             break
         if not o["dev"]:
             whys.append(why)
-    case = dict(scenario=sc)
+    case = dict(scenario=sc, rendering=variants(sc))
     if case_extra:
         case.update(case_extra)
     if best is not None and not best["dev"]:
@@ -700,6 +772,7 @@ def random_scenario(rng, profile):
     big = profile == "C28"
     pad = {f: rng.choice([0, 0, 1, 2, 4] if big else [0, 0, 1]) for f in files}
     ind = {f: rng.choice([0, 1, 2, 5] if big else [0, 0, 2]) for f in files}
+    deco = {f: rng.choice([0, 0, 6, 9, 14] if big else [0, 0, 0, 7]) for f in files}
     pool = rng.choice([[], ["p"], ["p", "q"]]) if profile == "C27" else rng.choice([[], ["p"]])
     declared = {"A": pool, "B": rng.choice([pool, [], ["p"]]) if two else []}
 
@@ -708,19 +781,30 @@ def random_scenario(rng, profile):
         how = rng.choice(["file", "file", "file", "strfile"])
         if (glob_kind or not imports[f]) and rng.random() < (0.45 if profile in ("C17", "C18") else 0.25):
             how = "str"
+        elif use_app and rng.random() < 0.4:
+            how = "app"                        # into the repository owned by the application
         if profile == "C27":
             given = sorted(rng.sample(["p", "q", "project_root", "zzz"], rng.choice([0, 1, 1, 2, 3])))
         else:
             given = [x for x in declared[lang[f]] if rng.random() < 0.3]
-        return {"op": "load", "file": f, "how": how, "given": given,
-                "vals": rng.choice(["std", "std", "none", "falsy"]) if profile == "C27" else "std"}
+        vals = "std"
+        if profile == "C27":
+            vals = rng.choice(["std", "std", "none", "falsy"] + (list(ROOT_FORMS) if "project_root" in given else []))
+        return {"op": "load", "file": f, "how": how, "given": given, "vals": vals}
 
+    use_app = profile in ("C17", "C18") and rng.random() < 0.3
     session = [load() for _ in range(rng.choice([1, 2, 2, 3, 4]))]
+    if profile == "C27" and rng.random() < 0.4:
+        # the language designer declares a further parameter between two loads
+        lg = rng.choice(sorted(set(lang.values())))
+        session.insert(rng.randint(1, len(session)),
+                       {"op": "declare", "file": lg, "how": "-", "given": [rng.choice(["q", "zzz"])], "vals": "-"})
+        session.append(load())
     if fault["kind"] != "none":
         session.append({"op": "repair", "file": "-", "how": "-", "given": [], "vals": "-"})
         session += [load(session[-2]["file"])] + [load() for _ in range(rng.choice([0, 1, 2]))]
     return dict(files=files, lang=lang, imports=imports, glob=glob, defs=defs, refs=refs, lrefs=lrefs, pad=pad,
-                ind=ind, kind=kind, repo=repo, builtin=builtin, declared=declared, fault=fault,
+                ind=ind, deco=deco, kind=kind, repo=repo, builtin=builtin, declared=declared, fault=fault,
                 session=session, clean=clean)
 
 
@@ -743,10 +827,25 @@ def check_family(rep, pid, findings, size, shards=None, sample=None, rng=None, n
         rep.add_mc(f"MC_LoaderRepo[{pid},{size}]", merge_results(rs), INVARIANTS)
         todo = scs
         if sample is not None and nfam > sample:
-            # small strata are replayed completely: histories with several string main models
-            must = [sc for sc in scs[:nfam] if sum(op["how"] == "str" for op in sc["session"]) >= 3]
-            rest = [sc for sc in scs[:nfam] if sum(op["how"] == "str" for op in sc["session"]) < 3]
-            todo = must + rng.sample(rest, max(0, min(len(rest), sample - len(must)))) + scs[nfam:]
+            # stratified: a seeded share of every stratum (fault kind, string-heavy history, load into an
+            # application repository, declaration between loads, two languages, parameter values), then
+            # a seeded sample of the rest
+            def stratum(sc):
+                ops = sc["session"]
+                return common.canon([sc["fault"]["kind"], sum(o["how"] == "str" for o in ops) >= 3,
+                                     any(o["how"] == "app" for o in ops), any(o["op"] == "declare" for o in ops),
+                                     len(set(sc["lang"].values())), sorted({o["vals"] for o in ops})])
+            strata = {}
+            for sc in scs[:nfam]:
+                strata.setdefault(stratum(sc), []).append(sc)
+            quota = max(30, sample // (2 * len(strata)))
+            picked = []
+            for key in sorted(strata):
+                grp = strata[key]
+                picked += grp if len(grp) <= quota else rng.sample(grp, quota)
+            ids = {sc["id"] for sc in picked}
+            rest = [sc for sc in scs[:nfam] if sc["id"] not in ids]
+            todo = picked + rng.sample(rest, max(0, min(len(rest), sample - len(picked)))) + scs[nfam:]
         for sc in todo:
             hist, _ = run_scenario(sc, root)
             nt = nontrivial(sc, hist) if nontrivial else True
@@ -845,8 +944,14 @@ def replay_case(path, findings):
 # ----------------------------------------------------------------------------- one property
 ASSUMPTIONS = [
     "carrier grammar Model: imports*=Import elems*=Elem; Def: 'def' name=ID; Use: 'use' ref=[Def:QName]; "
-    "UseList: 'refs' refs+=[Def:QName][','] (RREL variant [Def:QName|+m:elems]); file texts follow the line "
-    "layout of LoaderRepo!LineLens (checked by the renderer)",
+    "UseList: 'refs' refs+=[Def:QName][','] (RREL variant [Def:QName|+m:elems]); Comment: /* .. */; file texts "
+    "follow the line layout of LoaderRepo!LineLens (checked by the renderer)",
+    "rendering choices the module does not speak about are fixed by a digest of the scenario: the directory is "
+    "reached through a symbolic link or directly; the root rule is backed by a user class or not; the comments "
+    "in front of items consist of ASCII, form feed, vertical tab, NEL, U+2028, U+2029, 0x1c/0x1e or decomposed "
+    "(NFD) text -- never of line feeds or carriage returns",
+    "a load into an application-owned repository is GlobalRepo(<file>).load_models_in_model_repo(repository) "
+    "with the languages registered; parameters declared between loads use model_param_defs.add",
     "two languages = two metamodels built from the same grammar text (so that elements of one are valid "
     "targets for the other), registered with register_language and file patterns *.?a / *.?b; files are "
     "dispatched by metamodel_for_file; each metamodel has its own declared parameters and its own, a shared "
@@ -856,8 +961,9 @@ ASSUMPTIONS = [
     "(a second object for the same file in one load gets a different label); a model without file name is ~@load",
     "failing processors are harness callables raising on elements named bado / badm; a reference named pp "
     "is postponed for ever by a user-level provider wrapped around the provider under test (not with RREL)",
-    "parameter values are rendering: std (1, 'v', 0), none (None) and falsy (0, '', False); a model must "
-    "expose every given name with exactly the given value",
+    "parameter values are rendering: std (1, 'v', 0), none (None) and falsy (0, '', False); project_root as the "
+    "absolute directory, with a trailing separator, through sub/.. or relative to the cwd; a model must expose "
+    "every given name with exactly the given value",
     "fragment: at most one injected fault per scenario; a duplicate definition only as that fault and only "
     "for a name defined in one model; with RREL every file has a reference (models are connected to the "
     "repositories per reference there); model_from_str without file name only with GlobalRepo providers or "
